@@ -136,7 +136,7 @@ def run_calls(ctx, nconf, nprog, tag):
             f = l.split(":::", 2)
             if len(f) == 3 and f[1].isdigit():
                 rows.setdefault(int(f[1]), []).append(f[2])
-        first_fail = min([r for r, v in g.expect.items() if v == "fail"] or [10 ** 9])
+        first_fail = min([r for r, v in g.expect.items() if v == "fail" and r not in g.unknown_key] or [10 ** 9])
         first_fail = min([first_fail] + list(rows))      # ... or the first diagnostic ti actually printed (an undecided call may be reported)
         cfg = {fn: c for fn, c in mdl.files.items()}
         for r in sorted(g.info):
@@ -151,6 +151,15 @@ def run_calls(ctx, nconf, nprog, tag):
                 stats["rest_only_failures_skipped"] += 1
                 if g.strict[r] == "fail" and r not in rows:
                     kf = next((f for f in ctx.findings if f.get("status") == "open" and f.get("predicate") == "rest-type-unchecked"), None)
+                    if kf and kf["id"] not in ctx.known_hits:
+                        common.known_finding(ctx, kf, kf["what"])
+                continue
+            if r in g.unknown_key:
+                # the call is wrong only by a keyword argument that no declaration has: ti skips such an argument when nothing else
+                # forces a report (known finding K37)
+                stats["unknown_keyword_only_failures_skipped"] = stats.get("unknown_keyword_only_failures_skipped", 0) + 1
+                if r not in rows:
+                    kf = next((f for f in ctx.findings if f.get("status") == "open" and f.get("predicate") == "unknown-keyword-ignored"), None)
                     if kf and kf["id"] not in ctx.known_hits:
                         common.known_finding(ctx, kf, kf["what"])
                 continue
